@@ -18,8 +18,9 @@ pub fn encode_ty(ty: &tast::Ty) -> String {
         tast::Ty::TVar(_v) => "Var".to_string(),
         tast::Ty::TParam { name } => format!("TParam_{}", name),
         tast::Ty::TTuple { typs } => {
+            // with the number of components: `(a, (b, c), d)` and `(a, (b, c, d))` are different types
             let inner = typs.iter().map(encode_ty).collect::<Vec<_>>().join("_");
-            format!("Tuple_{}", inner)
+            format!("Tuple{}_{}", typs.len(), inner)
         }
         tast::Ty::TEnum { name } | tast::Ty::TStruct { name } => name.clone(),
         tast::Ty::TDyn { trait_name } => format!("Dyn_{}", trait_name),
@@ -38,7 +39,8 @@ pub fn encode_ty(ty: &tast::Ty) -> String {
         tast::Ty::TFunc { params, ret_ty } => {
             let p = params.iter().map(encode_ty).collect::<Vec<_>>().join("_");
             let r = encode_ty(ret_ty);
-            format!("Fn_{}_to_{}", p, r)
+            // with the number of parameters: `((a, b) -> c) -> d` and `((a) -> b, c) -> d` are different types
+            format!("Fn{}_{}_to_{}", params.len(), p, r)
         }
     }
 }
